@@ -11,6 +11,7 @@ import (
 	"github.com/cube2222/octosql/config"
 	. "github.com/cube2222/octosql/execution"
 	"github.com/cube2222/octosql/execution/files"
+	"github.com/cube2222/octosql/helpers/simhook"
 	"github.com/cube2222/octosql/octosql"
 	"github.com/cube2222/octosql/physical"
 )
@@ -27,6 +28,7 @@ func (d *DatasourceExecuting) Run(ctx ExecutionContext, produce ProduceFn, metaS
 		return fmt.Errorf("couldn't open local file: %w", err)
 	}
 	defer f.Close()
+	ctx.Context = simhook.TagContext(ctx.Context, d.path)
 
 	sc := bufio.NewScanner(f)
 	sc.Buffer(nil, config.FromContext(ctx).Files.JSON.MaxLineSizeBytes)
@@ -75,6 +77,7 @@ func (d *DatasourceExecuting) Run(ctx ExecutionContext, produce ProduceFn, metaS
 			job.data = append(job.data, data)
 
 			if len(job.lines) == batchSize {
+				simhook.YieldCtx(localCtx, "json.reader.submit", int64(job.lines[0]))
 				select {
 				case outChanAvailableTokens <- struct{}{}:
 					parserWorkReceiveChannel <- job
@@ -94,6 +97,7 @@ func (d *DatasourceExecuting) Run(ctx ExecutionContext, produce ProduceFn, metaS
 			line++
 		}
 		if len(job.lines) > 0 {
+			simhook.YieldCtx(localCtx, "json.reader.submit", int64(job.lines[0]))
 			select {
 			case outChanAvailableTokens <- struct{}{}:
 				parserWorkReceiveChannel <- job
@@ -102,6 +106,7 @@ func (d *DatasourceExecuting) Run(ctx ExecutionContext, produce ProduceFn, metaS
 				return
 			}
 		}
+		simhook.YieldCtx(localCtx, "json.reader.done", 0)
 		done <- sc.Err()
 	}()
 
